@@ -437,14 +437,14 @@ func corrC20Time(r *Run) *c20Time {
 	r.Import("Model.SmppTime")
 	c := &c20Time{r: r, caseLeft: map[string]int{}, advLeft: map[string]int{}}
 	for _, op := range []string{"timeparse", "timefmt", "durparse", "durfmt"} {
-		c.advLeft[op] = r.N(500, 6000)
+		c.advLeft[op] = r.N(300, 6000)
 	}
 	rng := r.Rng
 	// kernel-case budgets (each op line is ALSO a direct test; in the thorough tier every line additionally
 	// goes through the extracted model, the kernel cases being the vm_compute slice all three must agree on)
-	c.caseLeft["timeparse"] = r.N(5000, 40000)
-	c.caseLeft["timefmt"] = r.N(5000, 45000)
-	c.caseLeft["durfmt"] = r.N(1500, 12000)
+	c.caseLeft["timeparse"] = r.N(4200, 40000)
+	c.caseLeft["timefmt"] = r.N(4200, 45000)
+	c.caseLeft["durfmt"] = r.N(1300, 12000)
 	c.caseLeft["durparse"] = r.N(500, 5000)
 
 	// ---- 0. corpus: the repository's own vectors and the known finding first
@@ -675,7 +675,7 @@ func (c *c20Time) receiverHistories(anyValid string) {
 		return fmt.Sprintf("%02d%02d%02d%02d%02d%02d%d00R", rng.Intn(100), rng.Intn(12), rng.Intn(30), rng.Intn(24), rng.Intn(60), rng.Intn(60), rng.Intn(10))
 	}
 	rejected := []string{"000101000000000", "020610233429000R", "0206102334290000+", "x", "991231235959948*"}
-	n := r.N(400, 4000)
+	n := r.N(300, 4000)
 	for i := 0; i < n; i++ {
 		// ---- pdu.Time
 		var tm pdu.Time
